@@ -3,6 +3,7 @@ C16: one evaluation layer of the model simulates one layer of the specification
 (`step_sim`), hence `eval` simulates `sem` (`eval_sim`).
 -/
 import EPV.Lemmas.ClosuresSim
+import EPV.Lemmas.ClosuresSort
 namespace EPV.Clo
 
 theorem zipFill_eq : ∀ (ps : List Nat) (pat : List (Option Seq)) (args : List Seq),
@@ -123,12 +124,517 @@ theorem callFn_sim (c : ICtx) (D : Env) (a : Nat) (args : List Seq) :
     cases hf : o.fixed with
     | none =>
       simp only [eraseObj, FObj.nargsOk, FObj.arity, hc, hf, if_true, pure_bind]
-      trace_state
-      sorry
+      apply currentVars_sim
+      intro e
+      by_cases h : args.length = ps.length
+      · simp only [h, if_true]
+        exact runBody_sim cfg ev sev hev c D body _ _ _
+      · simp only [h, if_false]
+        exact Sim.thr _ _
     | some pat =>
       simp only [eraseObj, FObj.nargsOk, FObj.arity, hc, hf]
-      trace_state
-      sorry
+      by_cases h : args.length = holes pat
+      · simp only [h, BEq.rfl, if_true, pure_bind]
+        apply currentVars_sim
+        intro e
+        apply Sim.flag_bind
+        intro hfl
+        simp only [Flags.none, Flags.mk.injEq, decide_eq_false_iff_not, Decidable.not_not, and_true,
+          true_and] at hfl
+        have hl : (fill pat args).length = ps.length := by rw [fill_length pat args h, hfl]
+        simp only [hl, if_true, zipFill_eq]
+        exact runBody_sim cfg ev sev hev c D body _ _ _
+      · have h' : (holes pat == args.length) = false := by
+          simp only [beq_eq_false_iff_ne, ne_eq]; exact fun h2 => h h2.symm
+        simp only [h', Bool.false_eq_true, if_false, h, SM.throw_bind]
+        exact Sim.thr _ _
+
+omit hev in
+theorem nargsOk_of_arity (o : FObj) (n : Nat) (h : n = o.arity) : o.nargsOk n = true := by
+  unfold FObj.nargsOk
+  split <;> simp [h]
+
+theorem partialApply_sim (c : ICtx) (D : Env) (a : Nat) (args : List (Option Expr)) :
+    Sim Prod.fst (partialApply cfg ev c D a args) (specPartial sev (eraseCtx c) a args) := by
+  unfold partialApply specPartial
+  apply Sim.bnd (Sim.getObj a)
+  intro o
+  by_cases h : args.length = (eraseObj o).arity
+  · rw [if_pos (nargsOk_of_arity o _ h), if_pos h]
+    apply Sim.flag_bind
+    intro _
+    apply currentVars_sim
+    intro e
+    apply Sim.bnd (evalArgs_sim ev sev hev c args D)
+    intro r
+    apply Sim.bnd (p := id) (Sim.alloc _)
+    intro n
+    exact Sim.ret _ _ _ rfl
+  · rw [if_neg h]
+    by_cases hn : o.nargsOk args.length = true
+    · rw [if_pos hn]
+      apply Sim.flag_bind
+      intro hfl
+      have h' : ¬ args.length = o.arity := h
+      simp [Flags.none, h'] at hfl
+    · rw [if_neg hn]
+      exact Sim.thr _ _
+
+theorem funArgEval_sim (c : ICtx) (D : Env) (f : Expr) :
+    Sim Prod.fst (funArgEval ev c D f) (do let v ← sev f (eraseCtx c); SM.single v) := by
+  unfold funArgEval
+  apply Sim.bnd (hev f c D)
+  intro v
+  exact Sim.map (Sim.single _) _ (fun _ => rfl)
+
+theorem funArg_sim (c : ICtx) (D : Env) (f : Expr) :
+    Sim Prod.fst (funArg ev c D f) (specFunArg sev (eraseCtx c) f) := by
+  cases f
+  case fnE t ps body =>
+    simp only [funArg, specFunArg]
+    exact Sim.map (Sim.alloc _) _ (fun _ => rfl)
+  all_goals
+    simp only [funArg, specFunArg]
+    exact funArgEval_sim ev sev hev c D _
+
+omit hev in
+theorem noteArity_bind_sim {γ δ} {q : γ → δ} (a n : Nat) {f : Unit → IM γ} {g : Nat → SM δ}
+    (h : Sim q (f ()) (g a)) :
+    Sim q (noteArity a n >>= f)
+      ((do let o ← SM.getObj a; if o.arity = n then pure a else SM.throw .XPTY0004) >>= g) := by
+  unfold noteArity
+  simp only [bind_assoc]
+  apply Sim.bnd (Sim.getObj a)
+  intro o
+  apply Sim.flag_bind
+  intro hfl
+  simp only [Flags.none, Flags.mk.injEq, decide_eq_false_iff_not, Decidable.not_not, and_true,
+    true_and] at hfl
+  simp only [eraseObj_arity, hfl, if_true, pure_bind]
+  exact h
+
+omit hev in
+theorem checkArity_bind_sim {γ δ} {q : γ → δ} (a n : Nat) {f : Unit → IM γ} {g : Nat → SM δ}
+    (h : Sim q (f ()) (g a)) :
+    Sim q (checkArity a n >>= f)
+      ((do let o ← SM.getObj a; if o.arity = n then pure a else SM.throw .XPTY0004) >>= g) := by
+  unfold checkArity
+  simp only [bind_assoc]
+  apply Sim.bnd (Sim.getObj a)
+  intro o
+  simp only [eraseObj_arity]
+  by_cases hn : o.arity = n
+  · simp only [hn, if_true, pure_bind]
+    exact h
+  · simp only [hn, if_false, SM.throw_bind]
+    have : (IM.throw Err.XPTY0004 >>= f) = IM.throw Err.XPTY0004 := by funext st; rfl
+    rw [this]
+    exact Sim.thr _ _
+
+theorem funArgNote_sim (c : ICtx) (D : Env) (f : Expr) (n : Nat) :
+    Sim Prod.fst (funArgNote ev c D f n) (specFunArgN sev (eraseCtx c) f n) := by
+  unfold funArgNote specFunArgN
+  apply Sim.bnd (funArg_sim ev sev hev c D f)
+  intro fa
+  have := noteArity_bind_sim (q := Prod.fst) fa.1 n (f := fun _ => pure fa) (g := pure)
+    (Sim.ret _ _ _ rfl)
+  rwa [bind_pure] at this
+
+theorem funArgCheck_sim (c : ICtx) (D : Env) (f : Expr) (n : Nat) :
+    Sim Prod.fst (funArgCheck ev c D f n) (specFunArgN sev (eraseCtx c) f n) := by
+  unfold funArgCheck specFunArgN
+  apply Sim.bnd (funArg_sim ev sev hev c D f)
+  intro fa
+  have := checkArity_bind_sim (q := Prod.fst) fa.1 n (f := fun _ => pure fa) (g := pure)
+    (Sim.ret _ _ _ rfl)
+  rwa [bind_pure] at this
+
+theorem funArgEvalNote_sim (c : ICtx) (D : Env) (f : Expr) (n : Nat) :
+    Sim Prod.fst (funArgEvalNote ev c D f n) (specFunArgEN sev (eraseCtx c) f n) := by
+  unfold funArgEvalNote specFunArgEN
+  have h1 := funArgEval_sim ev sev hev c D f
+  have : (do let v ← sev f (eraseCtx c); let a ← SM.single v; let o ← SM.getObj a
+             if o.arity = n then pure a else SM.throw .XPTY0004) =
+         ((do let v ← sev f (eraseCtx c); SM.single v) >>= fun a => do
+             let o ← SM.getObj a; if o.arity = n then pure a else SM.throw .XPTY0004) := by
+    simp only [bind_assoc]
+  rw [this]
+  apply Sim.bnd h1
+  intro fa
+  have := noteArity_bind_sim (q := Prod.fst) fa.1 n (f := fun _ => pure fa) (g := pure)
+    (Sim.ret _ _ _ rfl)
+  rwa [bind_pure] at this
+
+/-! ### loops -/
+
+theorem forLoop_sim (c : ICtx) (x : Nat) (b : Expr) : ∀ (is : Seq) (D : Env) (acc : Seq),
+    Sim Prod.fst (forLoop ev c x b D acc is)
+      (specFor sev (eraseCtx c) x b is >>= fun rs => pure (acc ++ rs))
+  | [], D, acc => by
+    simp only [forLoop, specFor, pure_bind, List.append_nil]
+    exact Sim.ret _ _ _ rfl
+  | i :: is, D, acc => by
+    simp only [forLoop, specFor, bind_assoc, pure_bind]
+    apply Sim.bnd (hev b _ _)
+    intro r
+    have := forLoop_sim c x b is r.2 (acc ++ r.1)
+    simpa only [List.append_assoc] using this
+
+theorem mapLoop_sim (c : ICtx) (b : Expr) : ∀ (is : Seq) (D : Env) (acc : Seq),
+    Sim Prod.fst (mapLoop ev c b D acc is)
+      (specMap sev (eraseCtx c) b is >>= fun rs => pure (acc ++ rs))
+  | [], D, acc => by
+    simp only [mapLoop, specMap, pure_bind, List.append_nil]
+    exact Sim.ret _ _ _ rfl
+  | i :: is, D, acc => by
+    simp only [mapLoop, specMap, bind_assoc, pure_bind]
+    apply Sim.bnd (hev b _ _)
+    intro r
+    have := mapLoop_sim c b is r.2 (acc ++ r.1)
+    simpa only [List.append_assoc] using this
+
+theorem hofForEach_sim (c : ICtx) (a : Nat) : ∀ (xs : Seq) (D : Env) (acc : Seq),
+    Sim Prod.fst (hofForEach cfg ev c a D acc xs)
+      (specForEach (specCall sev) a xs >>= fun rs => pure (acc ++ rs))
+  | [], D, acc => by
+    simp only [hofForEach, specForEach, pure_bind, List.append_nil]
+    exact Sim.ret _ _ _ rfl
+  | x :: xs, D, acc => by
+    simp only [hofForEach, specForEach, bind_assoc, pure_bind]
+    apply Sim.bnd (callFn_sim cfg ev sev hev c D a _)
+    intro r
+    have := hofForEach_sim c a xs r.2 (acc ++ r.1)
+    simpa only [List.append_assoc] using this
+
+theorem hofFilter_sim (c : ICtx) (a : Nat) : ∀ (xs : Seq) (D : Env) (acc : Seq),
+    Sim Prod.fst (hofFilter cfg ev c a D acc xs)
+      (specFilter (specCall sev) a xs >>= fun rs => pure (acc ++ rs))
+  | [], D, acc => by
+    simp only [hofFilter, specFilter, pure_bind, List.append_nil]
+    exact Sim.ret _ _ _ rfl
+  | x :: xs, D, acc => by
+    simp only [hofFilter, specFilter, bind_assoc]
+    apply Sim.bnd (callFn_sim cfg ev sev hev c D a _)
+    intro r
+    obtain ⟨r1, r2⟩ := r
+    match r1 with
+    | [.bool true] =>
+      simp only [bind_assoc, pure_bind, if_true]
+      have := hofFilter_sim c a xs r2 (acc ++ [x])
+      simpa only [List.append_assoc, List.singleton_append] using this
+    | [.bool false] =>
+      simp only [bind_assoc, pure_bind, Bool.false_eq_true, if_false]
+      exact hofFilter_sim c a xs r2 acc
+    | [] => simp only [SM.throw_bind]; exact Sim.thr _ _
+    | [.int _] => simp only [SM.throw_bind]; exact Sim.thr _ _
+    | [.fn _] => simp only [SM.throw_bind]; exact Sim.thr _ _
+    | _ :: _ :: _ => simp only [SM.throw_bind]; exact Sim.thr _ _
+
+theorem hofFoldLeft_sim (c : ICtx) (a : Nat) : ∀ (xs : Seq) (D : Env) (res : Seq),
+    Sim Prod.fst (hofFoldLeft cfg ev c a D res xs) (specFoldLeft (specCall sev) a res xs)
+  | [], D, res => by
+    simp only [hofFoldLeft, specFoldLeft]
+    exact Sim.ret _ _ _ rfl
+  | x :: xs, D, res => by
+    simp only [hofFoldLeft, specFoldLeft]
+    apply Sim.bnd (callFn_sim cfg ev sev hev c D a _)
+    intro r
+    exact hofFoldLeft_sim c a xs r.2 r.1
+
+omit hev in
+theorem specFoldRight_snoc (callf : Nat → List Seq → SM Seq) (a : Nat) (zero : Seq) (y : Item) :
+    ∀ (l : Seq), specFoldRight callf a zero (l ++ [y]) =
+      callf a [[y], zero] >>= fun r => specFoldRight callf a r l
+  | [] => by simp [specFoldRight]
+  | x :: l => by
+    simp only [List.cons_append, specFoldRight, specFoldRight_snoc callf a zero y l, bind_assoc]
+
+theorem hofFoldRightRev_sim (c : ICtx) (a : Nat) : ∀ (ys : Seq) (D : Env) (res : Seq),
+    Sim Prod.fst (hofFoldRightRev cfg ev c a D res ys) (specFoldRight (specCall sev) a res ys.reverse)
+  | [], D, res => by
+    simp only [hofFoldRightRev, specFoldRight, List.reverse_nil]
+    exact Sim.ret _ _ _ rfl
+  | y :: ys, D, res => by
+    simp only [hofFoldRightRev, List.reverse_cons, specFoldRight_snoc]
+    apply Sim.bnd (callFn_sim cfg ev sev hev c D a _)
+    intro r
+    exact hofFoldRightRev_sim c a ys r.2 r.1
+
+theorem hofPairs_sim (c : ICtx) (a : Nat) : ∀ (xs ys : Seq) (D : Env) (acc : Seq),
+    Sim Prod.fst (hofPairs cfg ev c a D acc (xs.zip ys))
+      (specForEachPair (specCall sev) a xs ys >>= fun rs => pure (acc ++ rs))
+  | [], ys, D, acc => by
+    simp only [List.zip_nil_left, hofPairs, specForEachPair, pure_bind, List.append_nil]
+    exact Sim.ret _ _ _ rfl
+  | x :: xs, [], D, acc => by
+    simp only [List.zip_nil_right, hofPairs, specForEachPair, pure_bind, List.append_nil]
+    exact Sim.ret _ _ _ rfl
+  | x :: xs, y :: ys, D, acc => by
+    simp only [List.zip_cons_cons, hofPairs, specForEachPair, bind_assoc, pure_bind]
+    apply Sim.bnd (callFn_sim cfg ev sev hev c D a _)
+    intro r
+    have := hofPairs_sim c a xs ys r.2 (acc ++ r.1)
+    simpa only [List.append_assoc] using this
+
+theorem hofKeys_sim (c : ICtx) (a : Nat) : ∀ (xs : Seq) (D : Env) (acc : List (Item × List Int)),
+    Sim Prod.fst (hofKeys cfg ev c a D acc xs)
+      (specKeys (specCall sev) a xs >>= fun ks => pure (acc ++ ks))
+  | [], D, acc => by
+    simp only [hofKeys, specKeys, pure_bind, List.append_nil]
+    exact Sim.ret _ _ _ rfl
+  | x :: xs, D, acc => by
+    simp only [hofKeys, specKeys, bind_assoc, pure_bind]
+    apply Sim.bnd (callFn_sim cfg ev sev hev c D a _)
+    intro r
+    apply Sim.bnd (p := id) (Sim.lift _)
+    intro k
+    have := hofKeys_sim c a xs r.2 (acc ++ [(x, k)])
+    simpa only [List.append_assoc, List.singleton_append, id] using this
+
+/-! ### fn:apply -/
+
+omit hev in
+theorem specCall_arity_err (a : Nat) (args : List Seq) (h : SHeap) (o : SObj) (ho : h[a]? = some o)
+    (hne : args.length ≠ o.arity) : specCall sev a args h = .error .XPTY0004 := by
+  unfold specCall
+  simp only [SM.bind_def, SM.getObj, ho]
+  unfold SObj.arity at hne
+  cases hf : o.fixed with
+  | none =>
+    simp only [hf] at hne
+    cases hc : o.code with
+    | builtin b =>
+      simp only [hc] at hne
+      simp only [SM.pure_def]
+      match args with
+      | [s] => simp at hne
+      | [] => rfl
+      | _ :: _ :: _ => rfl
+    | inline ps body =>
+      simp only [hc] at hne
+      simp only [SM.pure_bind, hne, if_false]
+      rfl
+  | some pat =>
+    simp only [hf] at hne
+    simp only [hne, if_false]
+    rfl
+
+theorem applyCall_sim (c : ICtx) (D : Env) (a : Nat) (vals : List Seq) :
+    Sim Prod.fst
+      (do let o ← IM.getObj a; IM.applyErr (o.arity == vals.length) (callFn cfg ev c D a vals))
+      (do let o ← SM.getObj a
+          if vals.length = o.arity then specCall sev a vals else SM.throw .FOAP0001) := by
+  intro st hfl
+  have hcs := callFn_sim cfg ev sev hev c D a vals st
+  rw [IM.bind_def] at hfl ⊢
+  rw [SM.bind_def]
+  simp only [IM.getObj, SM.getObj, eraseHeap_get] at hfl ⊢
+  cases ho : st.heap[a]? with
+  | none => simp [Except.map]
+  | some o =>
+    simp only [ho, Option.map_some, Flags.none_or] at hfl ⊢
+    by_cases hl : vals.length = (eraseObj o).arity
+    · have hl' : vals.length = o.arity := hl
+      have hb : (o.arity == vals.length) = true := by simp [hl']
+      rw [if_pos hl]
+      simp only [hb] at hfl ⊢
+      unfold IM.applyErr at hfl ⊢
+      generalize callFn cfg ev c D a vals st = r at hfl hcs ⊢
+      obtain ⟨fl, res⟩ := r
+      cases res with
+      | ok v => simp only at hfl ⊢; exact hcs hfl
+      | error e =>
+        cases e <;> simp only at hfl ⊢ <;> first | exact hcs hfl | skip
+        obtain ⟨_, h2⟩ := (Flags.or_none_iff _ _).mp hfl
+        simp [Flags.none] at h2
+    · have hl' : ¬ vals.length = o.arity := hl
+      have hb : (o.arity == vals.length) = false := by
+        simp only [beq_eq_false_iff_ne, ne_eq]; exact fun h2 => hl' h2.symm
+      have hspec := specCall_arity_err sev a vals (eraseHeap st.heap) (eraseObj o)
+        (by rw [eraseHeap_get, ho]; rfl) hl
+      rw [if_neg hl]
+      simp only [hb] at hfl ⊢
+      unfold IM.applyErr at hfl ⊢
+      generalize callFn cfg ev c D a vals st = r at hfl hcs ⊢
+      obtain ⟨fl, res⟩ := r
+      have hnone : fl = Flags.none := by
+        cases res with
+        | ok v => exact hfl
+        | error e =>
+          cases e <;> simp only at hfl <;> first | exact hfl | skip
+          exact ((Flags.or_none_iff _ _).mp hfl).1
+      have h3 := hcs hnone
+      rw [hspec] at h3
+      cases res with
+      | ok v => simp [Except.map] at h3
+      | error e =>
+        simp only [Except.map, Except.error.injEq] at h3
+        subst h3
+        simp [SM.throw, Except.map]
+
+/-! ### one layer -/
+
+theorem evArith_sim (op : AOp) (a b : Expr) (c : ICtx) (D : Env) :
+    Sim Prod.fst (evArith ev op a b c D) (specArith sev op a b (eraseCtx c)) := by
+  unfold evArith specArith
+  apply Sim.bnd (hev a c D); intro x
+  apply Sim.bnd (hev b c x.2); intro y
+  exact Sim.map (Sim.lift _) _ (fun _ => rfl)
+
+theorem evCompare_sim (op : COp) (a b : Expr) (c : ICtx) (D : Env) :
+    Sim Prod.fst (evCompare ev op a b c D) (specCompare sev op a b (eraseCtx c)) := by
+  unfold evCompare specCompare
+  apply Sim.bnd (hev a c D); intro x
+  apply Sim.bnd (hev b c x.2); intro y
+  exact Sim.map (Sim.lift _) _ (fun _ => rfl)
+
+theorem step_sim (e : Expr) (c : ICtx) (D : Env) :
+    Sim Prod.fst (step cfg ev e c D) (specStep sev e (eraseCtx c)) := by
+  cases e with
+  | lit n => exact Sim.ret _ _ _ rfl
+  | tt => exact Sim.ret _ _ _ rfl
+  | ff => exact Sim.ret _ _ _ rfl
+  | emp => exact Sim.ret _ _ _ rfl
+  | var x =>
+    simp only [step, specStep]
+    apply Sim.flag_bind
+    intro hfl
+    simp only [Flags.none, Flags.mk.injEq, decide_eq_false_iff_not, Decidable.not_not, and_true,
+      true_and] at hfl
+    simp only [eraseCtx, ← hfl]
+    cases D.lookup x with
+    | none => exact Sim.thr _ _
+    | some v => exact Sim.ret _ _ _ rfl
+  | dot =>
+    simp only [step, specStep]
+    apply Sim.flag_bind
+    intro hfl
+    simp only [Flags.none, Flags.mk.injEq, decide_eq_false_iff_not, Decidable.not_not, and_true,
+      true_and] at hfl
+    simp only [eraseCtx, ← hfl]
+    cases c.item with
+    | none => exact Sim.thr _ _
+    | some v => exact Sim.ret _ _ _ rfl
+  | add a b => exact evArith_sim ev sev hev _ a b c D
+  | sub a b => exact evArith_sim ev sev hev _ a b c D
+  | mul a b => exact evArith_sim ev sev hev _ a b c D
+  | gt a b => exact evCompare_sim ev sev hev _ a b c D
+  | eq a b => exact evCompare_sim ev sev hev _ a b c D
+  | cat a b =>
+    simp only [step, specStep]
+    apply Sim.bnd (hev a c D); intro x
+    apply Sim.bnd (hev b c x.2); intro y
+    exact Sim.ret _ _ _ rfl
+  | ite cnd t e =>
+    simp only [step, specStep]
+    apply Sim.bnd (hev cnd c D); intro v
+    apply Sim.bnd (p := id) (Sim.lift _); intro b
+    cases b
+    · exact hev e c v.2
+    · exact hev t c v.2
+  | forE x s b =>
+    simp only [step, specStep]
+    apply Sim.bnd (hev s c D); intro xs
+    have := forLoop_sim ev sev hev c x b xs.1 xs.2 []
+    simp only [List.nil_append, bind_pure] at this
+    exact Sim.map this _ (fun _ => rfl)
+  | letE x v b =>
+    simp only [step, specStep]
+    apply Sim.bnd (hev v c D); intro xv
+    exact Sim.map (hev b _ _) _ (fun _ => rfl)
+  | fnE t ps body =>
+    simp only [step, specStep]
+    cases cfg.share
+    · simp only [Bool.false_eq_true, if_false, pure_bind]
+      apply Sim.bnd (p := id) (Sim.alloc _); intro n
+      exact Sim.ret _ _ _ rfl
+    · simp only [if_true]
+      apply Sim.silent_bind (silent_setSlot _ _); intro _
+      apply Sim.bnd (p := id) (Sim.alloc _); intro n
+      exact Sim.ret _ _ _ rfl
+  | named b =>
+    simp only [step, specStep]
+    apply Sim.bnd (p := id) (Sim.alloc _); intro n
+    exact Sim.ret _ _ _ rfl
+  | call f args =>
+    simp only [step, specStep]
+    apply Sim.bnd (hev f c D); intro fv
+    apply Sim.bnd (p := id) (Sim.single _); intro a
+    cases args.any Option.isNone
+    · simp only [Bool.false_eq_true, if_false]
+      apply Sim.bnd (evalList_sim ev sev hev c _ _); intro vals
+      exact callFn_sim cfg ev sev hev c _ _ _
+    · simp only [if_true]
+      exact partialApply_sim cfg ev sev hev c _ _ _
+  | par e => exact hev e c D
+  | smap a b =>
+    simp only [step, specStep]
+    apply Sim.bnd (hev a c D); intro xs
+    have := mapLoop_sim ev sev hev c b xs.1 xs.2 []
+    simpa only [List.nil_append, bind_pure] using this
+  | forEach s f =>
+    simp only [step, specStep]
+    apply Sim.bnd (funArgNote_sim ev sev hev c D f 1); intro fa
+    apply Sim.bnd (hev s c fa.2); intro xs
+    have := hofForEach_sim cfg ev sev hev c fa.1 xs.1 xs.2 []
+    simpa only [List.nil_append, bind_pure] using this
+  | filter s f =>
+    simp only [step, specStep]
+    apply Sim.bnd (funArgNote_sim ev sev hev c D f 1); intro fa
+    apply Sim.bnd (hev s c fa.2); intro xs
+    have := hofFilter_sim cfg ev sev hev c fa.1 xs.1 xs.2 []
+    simpa only [List.nil_append, bind_pure] using this
+  | foldL s z f =>
+    simp only [step, specStep]
+    apply Sim.bnd (funArgCheck_sim ev sev hev c D f 2); intro fa
+    apply Sim.bnd (hev z c fa.2); intro zero
+    apply Sim.bnd (hev s c zero.2); intro xs
+    exact hofFoldLeft_sim cfg ev sev hev c fa.1 xs.1 xs.2 zero.1
+  | foldR s z f =>
+    simp only [step, specStep]
+    apply Sim.bnd (funArgCheck_sim ev sev hev c D f 2); intro fa
+    apply Sim.bnd (hev z c fa.2); intro zero
+    apply Sim.bnd (hev s c zero.2); intro xs
+    have := hofFoldRightRev_sim cfg ev sev hev c fa.1 xs.1.reverse xs.2 zero.1
+    simpa only [List.reverse_reverse] using this
+  | pairs s1 s2 f =>
+    simp only [step, specStep]
+    apply Sim.bnd (funArgCheck_sim ev sev hev c D f 2); intro fa
+    apply Sim.bnd (hev s1 c fa.2); intro xs
+    cases xs.1.isEmpty
+    · simp only [Bool.false_eq_true, if_false]
+      apply Sim.bnd (hev s2 c xs.2); intro ys
+      have := hofPairs_sim cfg ev sev hev c fa.1 xs.1 ys.1 ys.2 []
+      simpa only [List.nil_append, bind_pure] using this
+    · simp only [if_true]
+      exact Sim.ret _ _ _ rfl
+  | sortK s f =>
+    simp only [step, specStep]
+    apply Sim.bnd (funArgEvalNote_sim ev sev hev c D f 1); intro fa
+    apply Sim.bnd (hev s c fa.2); intro xs
+    unfold specSort
+    by_cases h : xs.1.length < 2
+    · simp only [h, if_true]
+      exact Sim.ret _ _ _ rfl
+    · simp only [h, if_false]
+      have := hofKeys_sim cfg ev sev hev c fa.1 xs.1 xs.2 []
+      simp only [List.nil_append, bind_pure] at this
+      apply Sim.bnd this; intro ks
+      exact Sim.ret _ _ _ (sortByKey_eq _)
+  | apply f ms =>
+    simp only [step, specStep]
+    apply Sim.bnd (funArg_sim ev sev hev c D f); intro fa
+    apply Sim.bnd (evalList_sim ev sev hev c _ _); intro vals
+    exact applyCall_sim cfg ev sev hev c _ _ _
 
 end
+
+/-- **the model simulates the specification**: for every configuration of the tree, every fuel,
+expression, context and variables dict, a run that raises no trigger flag returns the value and
+the (erased) heap that the lexical-closure semantics returns -/
+theorem eval_sim (cfg : Cfg) : ∀ (n : Nat) (e : Expr) (c : ICtx) (D : Env),
+    Sim Prod.fst (eval cfg n e c D) (sem n e (eraseCtx c))
+  | 0, e, c, D => Sim.thr _ _
+  | n + 1, e, c, D => step_sim cfg (eval cfg n) (sem n) (eval_sim cfg n) e c D
+
 end EPV.Clo
